@@ -4,7 +4,7 @@
    PulseStorage over the same backend loads (comparison flags computed on the real objects).
    check_corr: the model predicts exactly that observation.  check_spec: the property itself on the observation. *)
 From Coq Require Import String List ZArith QArith Bool.
-Require Import QV.common.Util QV.C10.Model.
+Require Import QV.common.Util QV.C10.Model QV.C10.Iface.
 Import ListNotations.
 Open Scope string_scope.
 
@@ -45,12 +45,17 @@ Record lobs := mkLobs {
   lo_share : bool      (* named sub-templates with one identifier are one object in the loaded tree *)
 }.
 
+(* the implementation's interface of an object; None = the property raised *)
+Definition iobs : Type := option (list string) * option (list string) * option (list chan).
+
 Inductive case :=
 | CStore (roots : list pt)                       (* the objects; shared objects repeat with the same oid *)
          (ops : list (nat * nat))                (* (which PulseStorage instance: 0/1, index of the root) *)
          (impl_res : list sres)
          (impl_be : list (string * json))
          (impl_loads : list (nat * lobs))        (* per distinct successfully stored root index *)
+         (vt : list (string * list string))      (* oracle: free symbols of every expression string of the roots *)
+         (impl_iface : list (nat * iobs))        (* per root: parameter_names, measurement_names, defined_channels *)
 | CDoc (be : list (string * json)) (i : string)  (* hand-written documents: load i, store the result elsewhere *)
        (impl_ok : bool) (impl_redoc : list (string * json))
 | CPinned (be : list (string * json)) (i : string)   (* documents written by the pinned code (corpus) *)
@@ -110,9 +115,20 @@ Definition lobs_corr (m o : lobs) : bool :=
   else if negb (lo_ok m) then negb (lo_ok o)
   else negb (lo_ok o) || negb (lo_eq o).
 
+Definition set_eqb {A} (eqb : A -> A -> bool) (a b : list A) : bool :=
+  forallb (fun x => existsb (eqb x) b) a && forallb (fun y => existsb (eqb y) a) b.
+Definition res_set_eqb {A} (eqb : A -> A -> bool) (m : result (list A)) (o : option (list A)) : bool :=
+  match m, o with Ok a, Some b => set_eqb eqb a b | Err _, None => true | _, _ => false end.
+Definition iface_corr (m : iface) (o : iobs) : bool :=
+  let '(op, om, oc) := o in
+  res_set_eqb String.eqb (if_params m) op && res_set_eqb String.eqb (if_mnames m) om && res_set_eqb chan_eqb (if_chans m) oc.
+
 Definition check_corr (c : case) : bool :=
   match c with
-  | CStore roots ops impl_res impl_be impl_loads =>
+  | CStore roots ops impl_res impl_be impl_loads vt impl_iface =>
+      forallb (fun ii => match nth_error roots (fst ii) with
+                         | Some p => iface_corr (iface_of vt p) (snd ii)
+                         | None => false end) impl_iface &&
       match resolve_ops roots ops with
       | None => false
       | Some mops =>
@@ -185,7 +201,7 @@ Definition clean (roots : list pt) (ops : list (nat * nat)) : bool :=
 
 Definition check_spec (c : case) : bool :=
   match c with
-  | CStore roots ops impl_res impl_be impl_loads =>
+  | CStore roots ops impl_res impl_be impl_loads _ _ =>
       let stored := stored_roots ops impl_res in
       let expected_ids := flat_map (fun k => match nth_error roots k with Some p => map fst (named_nodes p) | None => [] end) stored in
       Nat.eqb (length impl_res) (length ops)
